@@ -1,18 +1,23 @@
 #!/bin/bash
-# usage: seed_matrix.sh [tier] [name ...]   -- run each seeded change against the check of the property it breaks; records the outcome in meta.json
+# usage: seed_matrix.sh [tier] [name ...]
+# Runs each seeded change (seeded/<name>/patch.diff) against the check of the property it breaks and records the
+# outcome in meta.json. The change is applied to a scratch worktree of /repo HEAD (QV_REPO), never to /repo itself,
+# and evidence/replays of these runs go to a scratch directory, so neither /repo nor /verif/evidence is disturbed.
 set -u
 tier=${1:-quick}; shift || true
 names=("$@"); [ ${#names[@]} -eq 0 ] && names=($(ls /verif/seeded))
+wt=/tmp/wt-seedmatrix.$$
+out=/tmp/seedmatrix-out.$$
+git -C /repo worktree add -q --detach "$wt" HEAD || exit 2
+trap 'git -C /repo worktree remove --force "$wt" 2>/dev/null; rm -rf "$out"' EXIT
 for name in "${names[@]}"; do
   d=/verif/seeded/$name
   id=$(python3 -c "import json;print(json.load(open('$d/meta.json'))['breaks_property'])")
-  cd /repo
-  if ! git diff --quiet; then echo "/repo dirty"; exit 2; fi
-  if ! git apply "$d/patch.diff" 2>/tmp/apply.err; then echo "$name: patch does not apply to /repo HEAD"; continue; fi
-  out=$(cd /verif && QV_VERIF_DIR_EVID=skip ./run.sh $id $tier 2>&1)
+  git -C "$wt" checkout -q -- . && git -C "$wt" clean -fdq
+  if ! git -C "$wt" apply "$d/patch.diff" 2>/tmp/apply.err; then echo "$name: patch does not apply to /repo HEAD"; continue; fi
+  outtxt=$(cd /verif && QV_REPO="$wt" QV_OUT_DIR="$out" ./run.sh $id $tier 2>&1)
   rc=$?
-  git -C /repo checkout -- . && git -C /repo clean -fdq
-  keys=$(echo "$out" | grep -oE "key=[^ ]+" | sort -u | head -5 | tr '\n' ' ')
+  keys=$(echo "$outtxt" | grep -oE "key=[^ ]+" | sort -u | head -5 | tr '\n' ' ')
   echo "$name $id $tier exit=$rc $keys"
   python3 - "$d/meta.json" "$id" "$tier" "$rc" "$keys" "$(git -C /repo rev-parse --short HEAD)" <<'PY'
 import json,sys
@@ -22,5 +27,3 @@ m.setdefault("detected_by",{})[f"{id} {tier}"]={"exit":int(rc),"detected":rc=="1
 json.dump(m,open(p,"w"),indent=1)
 PY
 done
-# the runs above rewrote evidence files with violating runs: restore the committed ones
-git -C /verif checkout -- evidence 2>/dev/null
